@@ -44,6 +44,17 @@ SIG_REFUSED = 'C10:whole-field:refused-assignment-changed-state'
 SIG_LEAK = 'C10:whole-field:edit-leaked-to-unrelated-list'
 SIG_COPY = 'C10:whole-field:wrapper-copy-shares-with-original'
 SIG_SHARED = 'C10:whole-field:two-models-serve-one-list'
+# C04 (theorems C04_wrapper_read_step / C04_read_history): a step that is not an edit - reading model.raw_xs or a value
+# view for the first or a later time, copy.deepcopy of a wrapper, len()/iteration through a view - changes no list any
+# handle shows (same item OBJECTS in the same order), no view's values, no wrapper's Repeated, and not one token or
+# character of the documents
+SIG_READ = 'C04:read-step-changed-a-list'
+READ_KINDS = ('gw', 'gv', 'copy')
+READ_SUBS = ('iter', 'len')
+
+
+def is_read_op(op: list) -> bool:
+    return op[0] in READ_KINDS or (op[0] == 'ev' and op[2][0] in READ_SUBS)
 
 
 def _text(kind: str, layout: list, k: int) -> str:
@@ -144,6 +155,12 @@ class World:
         except Exception as e:  # noqa: BLE001
             return EXC.get(common.exn_name(e), 9), []
 
+    def doc_state(self) -> list:
+        """printed text and token identities of every document of the case"""
+        import io
+        from autobean_refactor import printer
+        return [(printer.print_model(d, io.StringIO()).getvalue(), [id(t) for t in d.token_store]) for d in self.docs]
+
     def py_dump(self) -> dict:
         """what the handles show through the public API (for the monitors)"""
         return {
@@ -234,6 +251,8 @@ class Runner:
         W = self.w
         kind = op[0]
         before = W.py_dump()
+        read_step = is_read_op(op)
+        docs_before = W.doc_state() if read_step else None
         exc: Optional[BaseException] = None
         ret = 'RNone'
         coq_op = None
@@ -376,6 +395,16 @@ class Runner:
                 if id(o.repeated) != touched_rep and w_ in before['w'] and after['w'][w_] != before['w'][w_]:
                     self.fail(SIG_LEAK, f'{cls}: an edit through one handle changed a list backed by another Repeated')
                     break
+        if read_step:
+            changed = [n for n in ('w', 'v', 'rep') if {k: v for k, v in after[n].items() if k in before[n]} != before[n]]
+            docs_after = W.doc_state()
+            if [t for t, _ in docs_after] != [t for t, _ in docs_before]:
+                changed.append('printed text')
+            elif docs_after != docs_before:
+                changed.append('tokens')
+            if changed:
+                self.fail(SIG_READ, f'{cls} is not an edit but changed what was there before it: '
+                                    f'{", ".join({"w": "the items a wrapper shows", "v": "the values a view shows", "rep": "the Repeated a wrapper wraps"}.get(c, c) for c in changed)}')
         return True
 
     def reg_view(self, o: Any, i: int, vname: str) -> str:
@@ -601,14 +630,15 @@ DIRECTED = [
 ]
 
 
-def run_all(ctx: common.Ctx):
+def run_all(ctx: common.Ctx, n_quick: int = 160, n_thorough: int = 1500, sigs: Optional[set] = None):
+    """sigs: the monitor signatures this caller reports (None: all of C10's, not C04's read-step monitor)"""
     ctx.assumptions.append(
         'whole-field assignment (WholeField.v): one repeated field per model instance; a Repeated is described by its '
         'items, whether detach() would accept it and whether its tokens are still in a store (the token layout of an '
         'accepted assignment is C03/C05); on a replaced list only append/insert/extend/pop are given a result '
         '(ValueError from the token store), other mutators are not exercised there; a field that spans the whole store '
         'of its free-standing parent (known finding D15) is outside the invariant')
-    n_hist = ctx.scale(160, 1500)
+    n_hist = ctx.scale(n_quick, n_thorough)
     cases, metas = [], []
     for hno in range(-len(DIRECTED), n_hist):
         if hno < 0:
@@ -632,7 +662,11 @@ def run_all(ctx: common.Ctx):
             ctx.count('private_state_unobservable', r.w.unobservable)
         if r.cut:
             ctx.count('whole_field_histories_cut_by_token_layer_exception')
+        if sigs is not None:
+            ctx.count('read_steps_monitored', sum(1 for o in ops[:r.executed] if is_read_op(o)))
         for f in r.failures:
+            if (f['sig'] not in sigs) if sigs is not None else (f['sig'] == SIG_READ):
+                continue
             ctx.monitor_failure(f['sig'], f['what'], {'wholefield': True, 'kind': kind, 'layouts': layouts,
                                                       'ops': ops[:max(f['at'] + 1, 1)] if f['sig'] != SIG_STALE else ops})
         if r.steps:
